@@ -78,6 +78,7 @@ REQUIRED = REQUIRED_fn  # type: ignore
 
 _INST = {}
 _ALIAS = [0]
+CLONE = [0]
 
 
 def make_instance(n, cfg, matrix=None, layout="C"):
@@ -452,6 +453,11 @@ def eval_plan(ctx, n, cfg, plan_rows, tag, matrix=None):
     v = obj.evaluate(gp)
     case = {"kind": "plan", "n": n, "cfg": list(cfg), "plan": plan_rows,
             "tag": tag}
+    CLONE[0] += 1
+    if CLONE[0] % 8 == 0 and isinstance(v, int):
+        from vlib.clones import judge_clones
+        judge_clones(ctx, obj, lambda o: (o.evaluate(gp), o.upper_bound()),
+                     (v, obj.upper_bound()), "error-count", case)
     if isinstance(v, bool) or not isinstance(v, int):
         ctx.violation("value-type", f"evaluate returned {type(v)}", case)
         return None
